@@ -19,7 +19,9 @@ RULE = ("Hypothesis: 1-4 fields, each with a string pseudo-type (int/float/bool/
         "type(leaf) is T and leaf == T.to_internal_value(original) at every leaf (NaN equal to itself), None where the sample had null "
         "and containers of the same shape (converters on; with converters off under attrs only directly / optionally typed IntString "
         "and FloatString fields); every other attribute equals the sample value with the same type. Non-trivial: a pseudo-type below "
-        ">= 1 wrapper, or an optional pseudo-typed field that is null/missing in some sample. distinct = canonical JSON of the case.")
+        ">= 1 wrapper, or an optional pseudo-typed field that is null/missing in some sample. In a quarter of the cases a second root model over the same keys is merged "
+        "into the first (the class constructs from the samples of both); in another quarter the model is a nested class of the nested "
+        "layout; transliteration on / off. distinct = canonical JSON of the case.")
 ASSUMPTIONS = ["attrs with converters off and boolean/date-like strings is a listed known finding (excluded from the construct clause by "
                "predicate, replayed)", "load failures are C03's business (skipped, counted)"]
 FLOORS = {"wrapped-pseudo-type": 0.25}
